@@ -9,7 +9,8 @@ run, so CPython binds positional/keyword arguments as it would for the real call
    imf_opts / envelope_opts / extrema_opts (and sift_thresh, max_imfs, noise_mode where they apply), on every path and
    for an arbitrary loop iteration (loops cut with a trivial invariant);
    get_next_imf -> interp_envelope : envelope_opts entries and extrema_opts on both the upper and the lower call;
-   interp_envelope -> get_padded_extrema : every entry of extrema_opts.
+   interp_envelope -> get_padded_extrema : every entry of extrema_opts;
+   get_padded_extrema -> _find_extrema / np.pad : parabolic flag; location / magnitude padding options and pad width on every padding round.
 multiprocessing.Pool.starmap is the assumed contract [f(*a) for a in args] (real functools.partial is used).
 """
 import copy
@@ -23,7 +24,7 @@ from pyvc.verify import Unit
 PROPERTY = 'C06'
 LEVEL = 'proof'
 FUNCTIONS = ['emd.sift.' + f for f in ('sift', '_sift_with_noise', 'ensemble_sift', 'complete_ensemble_sift', 'mask_sift', 'get_mask_freqs', 'get_next_imf_mask',
-                                       'get_next_imf', 'interp_envelope', 'sift_second_layer', 'mask_sift_second_layer')]
+                                       'get_next_imf', 'interp_envelope', 'get_padded_extrema', 'sift_second_layer', 'mask_sift_second_layer')]
 ASSUMPTIONS = [
     'assumed stdlib contract: multiprocessing.Pool(n).starmap(f, args) == [f(*a) for a in args] (order preserving); functools.partial is the real one',
     'stage callees are replaced by recording stubs with the real signatures and arbitrary results (modular verification: each callee is itself a unit here)',
@@ -306,6 +307,97 @@ def units(tier):
             add('interp_envelope[%s,%s]' % (method, mode), 'interp_envelope', mk_ie, ns_ie, raises={ValueError: lambda c, a, kw, ex: None},
                 post=lambda c, a, kw, r: _obl(c, 'post:extrema-stage-called-once', c.ghost.get('n_gpe', 0) == 1))
 
+    # get_padded_extrema -> np.pad : the caller's location / magnitude padding options and pad width on EVERY padding round
+    def _role(arr):
+        """'L' / 'M' if the array derives from the extrema locations / magnitudes (by the spec function its elements are built on)"""
+        seen, todo, roles = set(), [z3.simplify(arr.elem(*[z3.Int('rq%d' % d) for d in range(arr.ndim)]))], set()
+        while todo:
+            t = todo.pop()
+            if t.get_id() in seen:
+                continue
+            seen.add(t.get_id())
+            if z3.is_app(t):
+                nm = t.decl().name()
+                if nm.startswith('roleL'):
+                    roles.add('L')
+                if nm.startswith('roleM'):
+                    roles.add('M')
+                todo.extend(t.children())
+            elif z3.is_quantifier(t):
+                todo.append(t.body())
+        return roles.pop() if len(roles) == 1 else None
+
+    def _role_arr(c2, role, n, kind):
+        f = c2.fresh_fun('role%s' % role, I, core.SORT[kind])
+        return SArr((n,), lambda i: f(i), kind)
+
+    for gmode in ('peaks', 'troughs', 'abs_peaks'):
+        for supplied in (True, False):
+            if tier == 'quick' and gmode != 'peaks' and not supplied:
+                continue
+
+            def mk_gpe(c, gmode=gmode, supplied=supplied):
+                I_, E_, X_ = c.ghost['tok']
+                kw = dict(pad_width=X_['pad_width'], mode=gmode, parabolic_extrema=X_['parabolic_extrema'])
+                if supplied:
+                    kw.update(loc_pad_opts=X_['loc_pad_opts'], mag_pad_opts=X_['mag_pad_opts'])
+                c.ghost['pads'] = []
+                return (_sig(c),), kw
+
+            def ns_gpe(c, supplied=supplied):
+                I_, E_, X_ = c.ghost['tok']
+                want = {'L': dict(X_['loc_pad_opts']) if supplied else {'mode': 'reflect', 'reflect_type': 'odd'},
+                        'M': dict(X_['mag_pad_opts']) if supplied else {'mode': 'median', 'stat_length': 1}}
+
+                def fe(b):
+                    c2 = core.C()
+                    _obl(c2, 'get_padded_extrema->_find_extrema:parabolic_extrema-forwarded', b['parabolic_extrema'] == X_['parabolic_extrema'])
+                    k = c2.fresh('next', I)
+                    c2.assume(k >= 0)
+                    c2.ghost['next'] = k
+                    return _role_arr(c2, 'L', k, 'f'), _role_arr(c2, 'M', k, 'f')
+
+                def pad(a, pad_width, mode='constant', **kw):
+                    c2 = core.C()
+                    role = _role(a)
+                    if role is None:
+                        raise core.Unsupported('np.pad on an array that is neither the extrema locations nor their magnitudes')
+                    nm = {'L': 'location', 'M': 'magnitude'}[role]
+                    c2.ghost['pads'].append(role)
+                    got = dict(kw, mode=mode)
+                    if supplied:
+                        _obl(c2, 'get_padded_extrema->np.pad:%s-padding-options-as-supplied' % nm, got == want[role], 'np.pad received %r, the supplied options are %r' % (got, want[role]))
+                    else:       # nothing supplied: whatever default is in force, it is the same on every padding round
+                        first = c2.ghost.setdefault('first_' + role, got)
+                        _obl(c2, 'get_padded_extrema->np.pad:%s-padding-options-the-same-on-every-round' % nm, got == first, 'np.pad received %r after %r' % (got, first))
+                    k = c2.ghost['next']
+                    c2.oblige('get_padded_extrema->np.pad:pad-width-is-min(pad_width, number of extrema)', lift(pad_width) == z3.If(k < X_['pad_width'], k, z3.IntVal(X_['pad_width'])), 'post')
+                    return _role_arr(c2, role, a.shape_e[0] + 2 * lift(pad_width), 'f')
+
+                class NP:
+                    def __getattr__(self, nme):
+                        return getattr(npshim, nme)
+                npo = NP()
+                npo.pad = pad
+                return {'_find_extrema': sig_stub(SIFT, '_find_extrema', fe, ES), 'np': npo}
+
+            def post_gpe(c, a, kw, r):
+                if r[0] is None:
+                    return
+                k = c.ghost['next']
+                pads = c.ghost['pads']
+                _obl(c, 'post:locations-and-magnitudes-padded-equally-often', pads.count('L') == pads.count('M') and len(pads) >= 2)
+            def _padded(role):
+                def mkd(e):
+                    c2 = core.C()
+                    n = c2.fresh('npad' + role, I)
+                    c2.assume(n >= 1)      # (a padded extrema array is never empty: at least two extrema plus the padding)
+                    return _role_arr(c2, role, n, 'f')
+                return mkd
+            decl = {'ret_max_locs': _padded('L'), 'ret_max_ext': _padded('M')}
+            add('get_padded_extrema[%s,%s]' % (gmode, 'pad options supplied' if supplied else 'pad options omitted'), 'get_padded_extrema', mk_gpe, ns_gpe,
+                loops={0: _trivial_loop(decl)}, post=post_gpe, raises={ValueError: lambda c, a, kw, ex: None})
+
     # second-layer sifts -> sift_func / mask_sift with the caller's sift_args
     def mk_sl(c):
         T = z3.Int('T')
@@ -353,7 +445,7 @@ def units(tier):
 
 def model_witness(unit_name, model):
     v = unit_name.split('[')[0]
-    if v in ('get_next_imf', 'interp_envelope'):
+    if v in ('get_next_imf', 'interp_envelope', 'get_padded_extrema'):
         return None
     return {'kind': 'trace', 'variant': v if v != '_sift_with_noise' else 'ensemble_sift', 'route': 'kwargs', 'nprocesses': 1}
 
@@ -500,7 +592,44 @@ def check_trace(recs, opts):
     return sorted(set(bad))
 
 
+PAD_SIGNALS = {
+    'slow-onset': lambda n: np.sin(2 * np.pi * np.linspace(0, 1, n) ** 2 * 9) * np.linspace(0.2, 1, n),
+    'chirp': lambda n: np.cos(2 * np.pi * (2 * np.linspace(0, 1, n) + 14 * np.linspace(0, 1, n) ** 3)),
+    'stationary': lambda n: np.sin(2 * np.pi * 13 * np.linspace(0, 1, n) + 0.4) + 0.3 * np.sin(2 * np.pi * 31 * np.linspace(0, 1, n)),
+    'late-burst': lambda n: np.where(np.arange(n) > n // 2, np.sin(2 * np.pi * 17 * np.linspace(0, 1, n)), 0.02 * np.linspace(0, 1, n)),
+}
+
+
+def _replay_padding(w):
+    """get_padded_extrema against np.pad applied with the SUPPLIED options on every padding round"""
+    import emd
+    from scipy import signal
+    x = PAD_SIGNALS[w['signal']](w.get('n', 200))
+    pw, mode = w['pad_width'], w['mode']
+    lo, mo = dict(w['loc_pad_opts']), dict(w['mag_pad_opts'])
+    y = {'peaks': x, 'troughs': -x, 'abs_peaks': np.abs(x)}[mode]
+    locs = signal.argrelextrema(y, np.greater, order=1)[0]
+    mags = y[locs] * (-1 if mode == 'troughs' else 1)
+    got = emd.sift.get_padded_extrema(x.copy(), pad_width=pw, mode=mode, loc_pad_opts=dict(lo), mag_pad_opts=dict(mo))
+    if len(locs) <= 1:
+        return (got[0] is not None), 'fewer than two extrema but a result was returned'
+    p = min(pw, len(locs))
+    L, M = np.pad(locs, p, **lo), np.pad(mags, p, **mo)
+    rounds = 1
+    while max(L) < len(x) or min(L) >= 0:
+        L, M = np.pad(L, p, **lo), np.pad(M, p, **mo)
+        rounds += 1
+        if rounds > 50:
+            return False, 'reference padding does not terminate for these options'
+    if got[0] is None or len(got[0]) != len(L) or not np.allclose(got[0], L) or not np.allclose(got[1], M):
+        return True, 'get_padded_extrema(%s, pad_width=%d, mode=%s, loc_pad_opts=%s, mag_pad_opts=%s): padded magnitudes %s differ from np.pad with the supplied options over %d round(s) %s' % (
+            w['signal'], pw, mode, lo, mo, None if got[1] is None else np.round(got[1], 4).tolist()[:8], rounds, np.round(M, 4).tolist()[:8])
+    return False, 'padded extrema are np.pad of the extrema with the supplied options (%d rounds)' % rounds
+
+
 def replay(w):
+    if w.get('kind') == 'padding':
+        return _replay_padding(w)
     if w.get('kind') != 'trace':
         return False, 'unknown witness kind'
     import warnings
@@ -537,3 +666,15 @@ def refute(tier, seed, emit):
                         emit.violation('option-dropped:%s' % variant.split('[')[0] + (':' + route if route != 'kwargs' else ''), w, msg)
         if emit.full:
             return
+    MAGS = [{'mode': 'median', 'stat_length': 1}, {'mode': 'reflect', 'reflect_type': 'even'}, {'mode': 'mean', 'stat_length': 3}, {'mode': 'symmetric'}, {'mode': 'wrap'}]
+    LOCS = [{'mode': 'reflect', 'reflect_type': 'odd'}]
+    emit.scope('get_padded_extrema on %d signals (slow onset / chirp / late burst need several padding rounds) x pad_width {1,2,3} x mode {peaks, troughs, abs_peaks} x %d magnitude-padding option sets: result = np.pad with the supplied options on every round; non-trivial = more than one round' % (len(PAD_SIGNALS), len(MAGS)), exhaustive=True)
+    for sg in PAD_SIGNALS:
+        for pw in (1, 2, 3):
+            for gm in ('peaks', 'troughs', 'abs_peaks'):
+                for mo in MAGS:
+                    w = {'kind': 'padding', 'signal': sg, 'pad_width': pw, 'mode': gm, 'loc_pad_opts': LOCS[0], 'mag_pad_opts': mo}
+                    ok, msg = replay(w)
+                    emit.case(('pad', sg, pw, gm, mo['mode']), nontrivial='1 rounds' not in msg and '1 round(s)' not in msg, contract='get_padded_extrema')
+                    if ok:
+                        emit.violation('custom-np.pad-options-govern-every-padding-round', w, msg)
